@@ -5,6 +5,8 @@
 //   T <cap> | <op> <op> .. ; <op> .. ; ... | <tid> <tid> ...   threads under the scheduler
 //   R <cap> <n> <trials>                            free-running trials on the real RNG (no script):
 //                                                   prints `r <anomalies> <times position i was yielded> ...`
+//   F <cap> <n> <trials>                            like R, but every trial on a fresh thread:
+//                                                   prints `f <anomalies> <consecutive identical outcomes> <counts> ...`
 //   X <cap> <pushers> <pushes each> <consumes>      free-running stress (real threads, no scheduler, real RNG)
 //   ops:  P<value bits, decimal u64>:<choice>   push(f64::from_bits(bits)) with a one-choice script installed
 //         C        consume, callback reads everything
@@ -128,6 +130,39 @@ fn run_free(cap: usize, n: usize, trials: usize) -> String {
     format!("r {} {}", bad, counts.iter().map(|c| c.to_string()).collect::<Vec<_>>().join(" "))
 }
 
+// free-running trials, each on a FRESH thread (the thread-local RNG is created per thread): per-position
+// retention counts and the number of consecutive trials with identical slot contents
+fn run_fresh(cap: usize, n: usize, trials: usize) -> String {
+    let mut counts = vec![0u64; n];
+    let mut bad = 0u64;
+    let mut same = 0u64;
+    let mut prev: Option<Vec<u64>> = None;
+    for _ in 0..trials {
+        let h = std::thread::spawn(move || {
+            let r = AtomicSamplingReservoir::new(cap);
+            for i in 0..n { r.push(i as f64); }
+            let mut out: Vec<u64> = Vec::new();
+            let mut ok = true;
+            r.consume(|drain| {
+                let expect = if n > cap { cap as f64 / n as f64 } else { 1.0 };
+                if drain.sample_rate() != expect || drain.len() != cap.min(n) { ok = false; }
+                out = drain.map(|v| v as u64).collect();
+            });
+            (ok, out)
+        });
+        match h.join() {
+            Ok((ok, out)) => {
+                if !ok { bad += 1; }
+                for i in &out { if (*i as usize) < n { counts[*i as usize] += 1; } else { bad += 1; } }
+                if prev.as_ref() == Some(&out) { same += 1; }
+                prev = Some(out);
+            }
+            Err(_) => bad += 1,
+        }
+    }
+    format!("f {} {} {}", bad, same, counts.iter().map(|c| c.to_string()).collect::<Vec<_>>().join(" "))
+}
+
 // free-running stress (real threads, no scheduler, real RNG): `pushers` threads push distinct
 // positive integers while one thread consumes periodically.  Judged: only what must hold even
 // inside the open late-push class (a drain never yields more than cap values nor more than its
@@ -228,6 +263,11 @@ fn main() {
             "X" => {
                 let a: Vec<usize> = head.map(|x| x.parse().unwrap()).collect();
                 run_stress(cap, a[0], a[1], a[2])
+            }
+            "F" => {
+                let n: usize = head.next().unwrap().parse().unwrap();
+                let trials: usize = head.next().unwrap().parse().unwrap();
+                run_fresh(cap, n, trials)
             }
             "R" => {
                 let n: usize = head.next().unwrap().parse().unwrap();
